@@ -48,6 +48,22 @@ theorem underscore_k_is_kth_argument :
     ∀ mac ∈ clauseMacros, ∀ n ∈ List.range 16, ∀ k ∈ List.range' 1 15,
       denotes mac n k = if k ≤ n then some (k - 1) else none := by decide
 
+/-- **the lambda every clause macro wraps around the user's expression**: the capture list is the macro's capture argument, the
+    parameter is the tuple of references to the actual arguments (by const reference for WITH), and NO clause lambda is
+    `mutable` — the copies a plain clause holds are immutable, so every call evaluates the expression on the same values
+    (the reference manual: "named local objects … refer to immutable copies"). -/
+theorem clause_lambdas :
+    clauseLambdas =
+      [("TROMPELOEIL_WITH_", "capture", "auto const& trompeloeil_x", ""),
+       ("TROMPELOEIL_SIDE_EFFECT_", "capture", "auto& trompeloeil_x", ""),
+       ("TROMPELOEIL_RETURN_", "capture", "auto& trompeloeil_x", "-> decltype(auto)"),
+       ("TROMPELOEIL_THROW_", "capture", "auto& trompeloeil_x", ""),
+       ("TROMPELOEIL_CO_RETURN_", "capture", "auto& trompeloeil_x", "-> decltype(auto)"),
+       ("TROMPELOEIL_CO_THROW_", "capture", "auto& trompeloeil_x", ""),
+       ("TROMPELOEIL_CO_YIELD_", "capture", "auto& trompeloeil_x", "")] := by decide
+
+theorem no_clause_lambda_is_mutable : clauseLambdas.all (fun l => l.2.2.2 == "" || l.2.2.2 == "-> decltype(auto)") = true := by decide
+
 /-- the store model of captures: a plain clause evaluates with the snapshot of the enclosing scope
     taken when the expectation was created, an LR_ clause with the scope as it is at the call. -/
 def clauseSees (macroName : String) (atCreation atCall : Int) : Option Int :=
